@@ -68,7 +68,7 @@ def machine_ranges(program, finfo, args, st):
             rng(v, t)
 
 
-def generate(program, cname, mode='vc'):
+def generate(program, cname, mode='vc', only_case=None):
     """Symbolically execute the function bound to contract `cname`; returns a FuncReport with
     every obligation (not yet discharged)."""
     c = CONTRACTS[cname]
@@ -77,6 +77,8 @@ def generate(program, cname, mode='vc'):
     if finfo is None:
         raise CannotBind('contract %s: function not found in /repo' % cname)
     cases = c.cases or [dict(label='')]
+    if only_case is not None:
+        cases = [cases[only_case]]
     axioms = contract_axioms(c)
     for case in cases:
         cc = copy.copy(c)
@@ -184,3 +186,82 @@ def frame_only(program, cname, params, assigns=(), requires=()):
         o.func = cname
         o.name = o.name.replace(cname + '#frame', cname)
     return keep, dict(paths=ex.paths, stores_examined=getattr(ex, 'stores_seen', 0), notes=sorted(ex.notes))
+
+
+# ------------------------------------------------------------------ parallel generation
+class ObText:
+    """An obligation reduced to what the rest of the pipeline needs (picklable)."""
+
+    def __init__(self, ob):
+        self.name = ob.name
+        self.kind = ob.kind
+        self.func = ob.func
+        self.line = ob.line
+        self.props = ob.props
+        self.note = ob.note
+        self.case = ob.case
+        self.smt2 = solve.to_smt2(ob.hyps, ob.goal, ob.axioms)
+        self.hyps = None
+        self.goal = None
+        self.axioms = None
+
+
+_PROGRAM = None
+
+
+def _gen_job(job):
+    cname, case_idx = job
+    try:
+        rep = generate(_PROGRAM, cname, only_case=case_idx)
+        merge_names(rep.obligations)
+        c = CONTRACTS[cname]
+        ax = contract_axioms(c)
+        vac = []
+        step = max(1, len(rep.obligations) // 4)
+        for o in rep.obligations[::step]:
+            vac.append(ObText(Obligation('vacuity::hyps-of::' + o.name, 'vacuity', o.hyps, z3.BoolVal(False), cname, axioms=ax)))
+        return dict(ok=True, name=cname, case_idx=case_idx, paths=rep.paths, notes=sorted(rep.notes), cases=rep.cases,
+                    vacuous=rep.vacuous, covers=len(rep.covers), trivial=rep.trivial,
+                    obligations=[ObText(o) for o in rep.obligations], vacuity=vac)
+    except (Unsupported, CannotBind) as e:
+        return dict(ok=False, name=cname, case_idx=case_idx, error='%s: %s' % (type(e).__name__, e))
+
+
+def generate_parallel(program, cnames, procs=16):
+    """One job per (function, contract case); returns FuncReports whose obligations are ObText."""
+    import multiprocessing as mp
+    global _PROGRAM
+    _PROGRAM = program
+    jobs = []
+    for n in cnames:
+        c = CONTRACTS[n]
+        if program.function(n) is None:
+            raise CannotBind('contract %s: function not found in /repo' % n)
+        for k in range(len(c.cases or [1])):
+            jobs.append((n, k))
+    if len(jobs) == 1 or procs == 1:
+        outs = [_gen_job(j) for j in jobs]
+    else:
+        pool = mp.get_context('fork').Pool(min(procs, len(jobs)))
+        try:
+            outs = pool.map(_gen_job, jobs, chunksize=1)
+        finally:
+            pool.close()
+            pool.join()
+    reports = {}
+    vac = []
+    for o in outs:
+        if not o['ok']:
+            raise CannotBind(o['error'])
+        rep = reports.get(o['name'])
+        if rep is None:
+            rep = reports[o['name']] = FuncReport(o['name'])
+        rep.obligations += o['obligations']
+        rep.paths += o['paths']
+        rep.notes |= set(o['notes'])
+        rep.cases += o['cases']
+        rep.vacuous += o['vacuous']
+        rep.trivial += o['trivial']
+        rep.covers['branches@%d' % o['case_idx']] = o['covers']
+        vac += o['vacuity']
+    return [reports[n] for n in cnames], vac
